@@ -9,3 +9,6 @@ def run(tier, seed):
     out = cfgmachine.run_machine("C13", [], ["C13_Isolated"], tier, seed)
     # and on the generated schema family (every schema shape)
     return cfgmachine.merge(out, cfgfamily.run_family("C13", [], ["C13_Isolated"], tier, seed))
+
+
+replay_file = cfgmachine.replay_file
